@@ -210,8 +210,8 @@ func evalC05(c C05Case) *h.Finding {
 	segs := c05Segments(parts, c.Seg)
 	o := h.RunS(cfg, be, segs, h.TermEOF)
 	desc := fmt.Sprintf("mode=%s state=%s msg=%q chunks=%v seg=%s linelimit=%d cmd=%q", c.Mode, c.State, c.Msg, c.Chunks, c.Seg, c.LineLimit, c.BadCmd)
-	if o.Panic != "" {
-		return h.F("c05-panic", "%s: handler panicked: %s", desc, o.Panic)
+	if f := o.Sanity("c05", desc); f != nil {
+		return f
 	}
 	if strings.Contains(o.Log, "panic") {
 		return h.F("c05-recovered-panic", "%s: recovered panic: %.300s", desc, o.Log)
